@@ -34,6 +34,8 @@ import (
 	"github.com/specterops/dawgs/drivers/pg/pgutil"
 	"github.com/specterops/dawgs/graph"
 
+	"github.com/specterops/dawgs/cypher/parser"
+
 	"verif/core"
 	"verif/enum/cytext"
 	"verif/enum/grammar"
@@ -196,6 +198,9 @@ func (s *explorer) take(text string) bool {
 func (s *explorer) eval(a artefact, mustReject string, insertInto bool) {
 	run := s.run
 	run.Add("evaluations", 1)
+	if run.Get("evaluations")%resetEvery == 0 {
+		parser.VerifResetPredictionCaches() // bounds the memory of ANTLR's process-wide prediction caches
+	}
 	run.Add("texts_"+a.Origin, 1)
 	v := parseDefault(a.Text)
 	marker, clean, tree := rawMarkers(a.Text)
@@ -315,6 +320,9 @@ func (s *explorer) insertions(base artefact, tree *cytext.RawTree) {
 		s.eval(artefact{Text: t, Origin: "insertion", Base: base.Text, Edit: e.what}, reason, false)
 	}
 }
+
+// resetEvery is the number of evaluations after which ANTLR's prediction caches are dropped (overlay accessor in cypher/parser).
+const resetEvery = 50000
 
 func main() {
 	run := core.Start("C09", "exploration")
